@@ -112,6 +112,39 @@ void h_wake_if_any(void) {
   VERIF_CANARY();
 }
 
+/* ---- wake_all at the level of the primitives it finally uses (dequeue from the sleep queue, publish on the run queue):
+   written so that it also judges a re-structured wake_all (batches, direct dequeues) by what it DOES.  Witness
+   pattern: one dequeue, chosen arbitrarily, hands out the witness thread TH0; all others hand out TH1.
+   "Every thread taken off the sleep queue is published exactly once" = the witness is; "returns only after the queue
+   has been observed empty" = the last dequeue before the return came back empty. */
+int g_wa_w_deq, g_wa_w_pushed, g_wa_last_null, g_wa_bad;
+myth_sleep_queue_item_t verif_deq_all(myth_sleep_queue_t * q) {
+  __CPROVER_assert(q == &SQ, "wake_all: dequeues from the queue it was given");
+  if (nondet_bool()) { g_wa_last_null = 1; return 0; }
+  g_wa_last_null = 0;
+  if (!g_wa_w_deq && nondet_bool()) { g_wa_w_deq = 1; TH0.env = 0; return (myth_sleep_queue_item_t)&TH0; }
+  TH1.env = 0;
+  return (myth_sleep_queue_item_t)&TH1;
+}
+void verif_push_all(myth_thread_queue_t q, myth_thread_t th) {
+  __CPROVER_assert(q == &ENV.runnable_q, "wake_all: publishes on the waker's own run queue");
+  __CPROVER_assert(th == &TH0 || th == &TH1, "wake_all: publishes only threads it took off the sleep queue");
+  __CPROVER_assert(th->env == &ENV, "wake_all: a woken thread is bound to the waking worker before it becomes stealable");
+  if (th == &TH0) {
+    __CPROVER_assert(g_wa_w_deq == 1 && g_wa_w_pushed == 0, "wake_all: a thread is published only after it was dequeued, and once");
+    g_wa_w_pushed = 1;
+  }
+}
+void h_wake_all_deep(void) {
+  env_setup();
+  g_wa_w_deq = g_wa_w_pushed = g_wa_last_null = 0;
+  int n = myth_wake_all_from_queue(&SQ, 0, 0);
+  __CPROVER_assert(g_wa_last_null == 1, "wake_all: returns only after the sleep queue has been observed empty");
+  __CPROVER_assert(g_wa_w_deq == g_wa_w_pushed, "wake_all: every thread taken off the sleep queue has been published (none is dropped)");
+  (void)n;
+  VERIF_CANARY();
+}
+
 int g_last_was_empty, g_any_woken;
 int wake_if_any_contract(myth_sleep_queue_t * q, callback_on_wakeup_t callback, void * arg)
   __CPROVER_requires(q == CV.sleep_q && callback == 0 && arg == 0)
